@@ -119,9 +119,10 @@ func (ri *RunInfo) absorb(res simrt.Result) {
 	if ri.Decisions == nil {
 		ri.Decisions = res.Decisions
 	}
-	if res.MaxParked >= 2 {
+	if res.Choices >= 3 && res.Tasks >= 3 {
 		ri.Nontrivial = true
 	}
+	ri.Probes["sched_choice_points"] += res.Choices
 	ri.CaseHash = simrt.Mix(ri.CaseHash, res.TraceHash)
 }
 
